@@ -105,7 +105,7 @@ class Server:
             data = str(ev[1]).encode()
         elif k == 'R':
             data = ev[1].encode()
-        elif k == 'E':
+        elif k in ('E', 'O'):
             data = b''
         else:
             raise ValueError(ev)
